@@ -390,6 +390,8 @@ H("endpoint_retry_token_native", ["C14"], "replay-only", "endpoint::retry_token_
   [("x", "u8")], 4, [], ["Endpoint::retry", "IncomingToken::from_header"], "native replay body of E2 query e2_endpoint_retry_token")
 H("endpoint_first_initial_native", ["C07", "C14", "C09"], "replay-only", "endpoint::first_initial_native",
   [("len_", "u16")], 4, [], ["Endpoint::handle", "Endpoint::handle_first_packet"], "native replay body of E2 query e2_endpoint_first_initial")
+H("conn_handle_packet_tail_native", ["C08"], "replay-only", "connection::handle_packet_tail_native",
+  [("x", "u8")], 4, [], ["Connection::handle_packet"], "native replay body of E2 slice query e2_handle_packet_tail")
 H("conn_peer_params_cid_auth_native", ["C14", "C04"], "replay-only", "connection::peer_params_cid_auth_native",
   [("server", "bool"), ("which", "u8")], 4, [], ["Connection::handle_peer_params"], "native replay body of E2 query e2_peer_params_cid_auth")
 
